@@ -13,10 +13,13 @@ ASSUMPTIONS = ["lstat size/nlink/mtime as ground truth", "string order = code-po
 
 def generators(tier, seed):
     if tier == "quick":
-        return [dict(module="MC_C05", cfg="MC_C05_q", workers=4), dict(module="MC_C05", cfg="MC_C05_r", workers=4, limit=3000)]
+        return [dict(module="MC_C05", cfg="MC_C05_q", workers=4), dict(module="MC_C05", cfg="MC_C05_r", workers=4, limit=3000),
+                # lists of three text keys with mixed directions
+                dict(module="MC_C05", cfg="MC_C05_3", workers=4, limit=2500)]
     # (pseudo-random trees of WorldRnd next to the fixed world)
     # (1.28 million key lists x styles are enumerated; a seeded sample of them is run - the driver keeps every record in memory)
-    return [dict(module="MC_C05", cfg="MC_C05_t", workers=8, limit=300000), dict(module="MC_C05", cfg="MC_C05_rt", workers=8, limit=40000)]
+    return [dict(module="MC_C05", cfg="MC_C05_t", workers=8, limit=300000), dict(module="MC_C05", cfg="MC_C05_rt", workers=8, limit=40000),
+            dict(module="MC_C05", cfg="MC_C05_3", workers=4)]
 
 MANIFEST = dict(
     design_ref='DESIGN.md §5 C05',
